@@ -161,6 +161,31 @@ example : (match run {} (samplePre ++ mkL "-old" :: [mkL "+new", mkL "diff --git
     | .ok m => (m.out.filter (fun r => isBody r.kind)).map (·.src) == [4, 5, 6]
     | .error _ => false) = true := by decide
 
+/-- **`hunk_line_shown_exactly_once_any`** (whole runs): the same for every hunk state of a git diff —
+unified, or combined with any number of parents (`git diff` during a merge, `git show` of a merge),
+outside conflict regions — and every line that can belong to a hunk body (`HunkBody`: empty, or
+starting with a blank, `+`, `-` or `\`; not a commit line): exactly one row of kind minus / plus /
+zero / other in the final output. -/
+theorem hunk_line_shown_exactly_once_any {cfg : Cfg} {pre post : List L} {l : L} {mi m : M}
+    (hmc : ∀ x ∈ pre ++ l :: post, startsWith x.text Generated.Markers.mcBegin = false)
+    (ei : runFrom cfg {} pre = .ok mi) (hsrc : mi.source = .gitDiff) (hst : isHunkState mi.st = true)
+    (hb : HunkBody l) (hsub : l.submodule = none) (e : run cfg (pre ++ l :: post) = .ok m) :
+    ((m.out.filter (fun r => isBody r.kind)).map (·.src)).count pre.length = 1 :=
+  run_hunk_line_exactly_once_any hmc ei hsrc hst hb hsub e
+
+/-- a combined diff meeting the hypotheses: line 5 (`- old`, removed from the first parent) is met in
+a two-parent hunk state -/
+def combinedPre : List L :=
+  ["diff --cc x", "index 1,2..3", "--- a/x", "+++ b/x", "@@@ -1,2 -1,2 +1,2 @@@"].map mkL
+
+example : (match runFrom {} {} combinedPre with
+    | .ok mi => mi.source == .gitDiff && isHunkState mi.st && (hunkCombinedParents mi.st).isSome
+    | .error _ => false) = true := by decide
+example : HunkBody (mkL "- old") := ⟨rfl, by decide⟩
+example : (match run {} (combinedPre ++ mkL "- old" :: [mkL " +new", mkL "  ctx"]) with
+    | .ok m => (m.out.filter (fun r => isBody r.kind)).map (·.src) == [5, 6, 7]
+    | .error _ => false) = true := by decide
+
 /-- the hypothesis about conflict regions is needed: an ancestor line of a diff3 conflict region is
 shown twice (once per comparison), by design -/
 theorem conflict_region_shows_ancestor_twice :
